@@ -18,12 +18,11 @@ use crate::{
 };
 use serde_json::{Value, json};
 use std::{
-    collections::{BTreeMap, BTreeSet, HashSet},
+    collections::{BTreeMap, BTreeSet},
     future::Future,
     net::TcpListener,
     path::{Path, PathBuf},
     pin::Pin,
-    sync::Mutex,
     task::Poll,
     time::{Duration, Instant},
 };
@@ -45,25 +44,24 @@ pub const F_SHUTDOWN_WILLS: &str = "FC12-2";
 // ports and configurations
 // ---------------------------------------------------------------------------------------------
 
-static PORTS: Mutex<Option<HashSet<u16>>> = Mutex::new(None);
+static NEXT_PORT: std::sync::atomic::AtomicU32 = std::sync::atomic::AtomicU32::new(0);
 
-/// a port that was free a moment ago and that this process has not handed out before
+/// Ports for the servers of a scenario. They are taken by a process-wide counter from a range BELOW the
+/// kernel's ephemeral range (32768..), so that no two scenarios of this process ever get the same port
+/// and no outgoing connection or `bind(0)` of anybody can sit on one between this call and the server's
+/// own bind; a probe bind skips ports that something else on the machine uses. (Asking the kernel for a
+/// free port and binding it later was tried first: it hands the same port to several threads, and
+/// every way of keeping them apart - a never-again set, holding rejected listeners open - either ran out
+/// of ports or blocked the very bind it was meant to protect. A clash ends as an inconclusive scenario
+/// that is retried, never as a verdict.)
 pub fn free_port() -> Result<u16, String> {
-    // listeners on ports that were handed out before are kept open until a fresh one is found: the kernel
-    // likes to hand the same free port out again and again
-    let mut held = vec![];
-    for _ in 0..500 {
-        let l = TcpListener::bind(("127.0.0.1", 0)).map_err(|e| e.to_string())?;
-        let p = l.local_addr().map_err(|e| e.to_string())?.port();
-        held.push(l);
-        let mut g = PORTS.lock().map_err(|e| e.to_string())?;
-        let set = g.get_or_insert_with(HashSet::new);
-        // ports handed out long ago belong to servers that are gone: forget them before the ephemeral range
-        // is used up (a rare clash with a port that is still in use ends as an inconclusive scenario and is retried)
-        if set.len() > 6000 {
-            set.clear();
-        }
-        if set.insert(p) {
+    const LO: u32 = 10_000;
+    const HI: u32 = 32_000;
+    let start = (std::process::id().wrapping_mul(613)) % (HI - LO);
+    for _ in 0..(HI - LO) {
+        let n = NEXT_PORT.fetch_add(1, std::sync::atomic::Ordering::SeqCst);
+        let p = (LO + (start + n) % (HI - LO)) as u16;
+        if TcpListener::bind(("127.0.0.1", p)).is_ok() {
             return Ok(p);
         }
     }
@@ -850,7 +848,16 @@ impl<'a> Exec<'a> {
             match v {
                 Verdict::Held => {}
                 Verdict::Known(ids) => self.known.extend(ids),
-                other => return other,
+                other => {
+                    if std::env::var("VERIF_C11_DEBUG").is_ok() {
+                        if let Verdict::Inconclusive(why) = &other {
+                            let l = self.leader.as_ref().map(|l| l.wait_finished(Duration::from_millis(300)));
+                            let f: Vec<_> = self.followers.iter().map(|f| f.as_ref().map(|f| f.server.try_finished())).collect();
+                            eprintln!("C11 debug: {why}; leader finished: {l:?}; followers finished: {f:?}");
+                        }
+                    }
+                    return other;
+                }
             }
         }
         if self.known.is_empty() { Verdict::Held } else { Verdict::Known(self.known.clone()) }
